@@ -83,6 +83,8 @@ ssize_t copy_file_range(int fi, off64_t *oi, int fo, off64_t *oo, size_t n, unsi
 
 static int stat_fault(const char *p) {
     if (has(p, "FAILSTAT")) { errno = EACCES; return 1; }
+    /* ...SELFSTAT...: only the entry itself cannot be stat-ed (the marker is in the last path component), what lies below it can */
+    if (p) { const char *b = strrchr(p, '/'); b = b ? b + 1 : p; if (strstr(b, "SELFSTAT")) { errno = EIO; return 1; } }
     if (has(p, "VANISHED")) { errno = ENOENT; return 1; }
     return 0;
 }
